@@ -63,7 +63,7 @@ theorem parseInputFieldsDefinition_E (fl : Flags) (fuel : Nat) :
 theorem parseEnumValueDefinition_E (fl : Flags) (fuel : Nat) :
     parseEnumValueDefinition (E fl) fuel = parseEnumValueDefinition fl fuel >>= fun d => pure d.erase := by
   simp only [parseEnumValueDefinition, parseDescription_E, parseName_E, parseDirectives_E, mkLoc_E, bind_assoc',
-    pure_bind', ite_bind, fail_bind, EnumValueDefinition.erase]
+    pure_bind', ite_bind, fail_bind, failAt_bind, failTokAt_bind, EnumValueDefinition.erase]
 
 theorem parseEnumValuesDefinition_E (fl : Flags) (fuel : Nat) :
     parseEnumValuesDefinition (E fl) fuel =
@@ -76,7 +76,7 @@ theorem parseUnionMemberTypes_E (fl : Flags) (fuel : Nat) :
 
 theorem parseDirectiveLocation_E (fl : Flags) :
     parseDirectiveLocation (E fl) = parseDirectiveLocation fl >>= fun n => pure n.erase := by
-  simp only [parseDirectiveLocation, parseName_E, bind_assoc', pure_bind', ite_bind, fail_bind, Name.erase]
+  simp only [parseDirectiveLocation, parseName_E, bind_assoc', pure_bind', ite_bind, fail_bind, failAt_bind, failTokAt_bind, Name.erase]
 
 theorem parseDirectiveLocations_E (fl : Flags) (fuel : Nat) :
     parseDirectiveLocations (E fl) fuel = parseDirectiveLocations fl fuel >>= fun ns => pure (ns.map Name.erase) := by
@@ -116,57 +116,57 @@ theorem parseTypeSystemDefinition_E (fl : Flags) (fuel : Nat) :
     parseTypeSystemDefinition (E fl) fuel = parseTypeSystemDefinition fl fuel >>= fun d => pure d.erase := by
   simp only [parseTypeSystemDefinition, parseSchemaDefinition_E, parseScalarTypeDefinition_E,
     parseObjectTypeDefinition_E, parseInterfaceTypeDefinition_E, parseUnionTypeDefinition_E, parseEnumTypeDefinition_E,
-    parseInputObjectTypeDefinition_E, parseDirectiveDefinition_E, bind_assoc', ite_bind, fail_bind]
+    parseInputObjectTypeDefinition_E, parseDirectiveDefinition_E, bind_assoc', ite_bind, fail_bind, failAt_bind, failTokAt_bind]
 
 /-! ### extensions -/
 
 theorem parseSchemaExtension_E (fl : Flags) (fuel : Nat) :
     parseSchemaExtension (E fl) fuel = parseSchemaExtension fl fuel >>= fun d => pure d.erase := by
   simp only [parseSchemaExtension, parseDirectives_E, parseOperationTypeDefinition_E, many_E, mkLoc_E, bind_assoc',
-    pure_bind', ite_bind, fail_bind, isEmpty_map', Definition.erase, List.map]
+    pure_bind', ite_bind, fail_bind, failAt_bind, failTokAt_bind, isEmpty_map', Definition.erase, List.map]
 
 theorem parseScalarTypeExtension_E (fl : Flags) (fuel : Nat) :
     parseScalarTypeExtension (E fl) fuel = parseScalarTypeExtension fl fuel >>= fun d => pure d.erase := by
   simp only [parseScalarTypeExtension, parseName_E, parseDirectives_E, mkLoc_E, bind_assoc', pure_bind', ite_bind,
-    fail_bind, isEmpty_map', Definition.erase]
+    fail_bind, failAt_bind, failTokAt_bind, isEmpty_map', Definition.erase]
 
 theorem parseObjectTypeExtension_E (fl : Flags) (fuel : Nat) :
     parseObjectTypeExtension (E fl) fuel = parseObjectTypeExtension fl fuel >>= fun d => pure d.erase := by
   simp only [parseObjectTypeExtension, parseName_E, parseImplementsInterfaces_E, parseDirectives_E,
-    parseFieldsDefinition_E, mkLoc_E, bind_assoc', pure_bind', ite_bind, fail_bind, isEmpty_map', Definition.erase]
+    parseFieldsDefinition_E, mkLoc_E, bind_assoc', pure_bind', ite_bind, fail_bind, failAt_bind, failTokAt_bind, isEmpty_map', Definition.erase]
 
 theorem parseInterfaceTypeExtension_E (fl : Flags) (fuel : Nat) :
     parseInterfaceTypeExtension (E fl) fuel = parseInterfaceTypeExtension fl fuel >>= fun d => pure d.erase := by
   simp only [parseInterfaceTypeExtension, parseName_E, parseDirectives_E,
-    parseFieldsDefinition_E, mkLoc_E, bind_assoc', pure_bind', ite_bind, fail_bind, isEmpty_map', Definition.erase]
+    parseFieldsDefinition_E, mkLoc_E, bind_assoc', pure_bind', ite_bind, fail_bind, failAt_bind, failTokAt_bind, isEmpty_map', Definition.erase]
 
 theorem parseUnionTypeExtension_E (fl : Flags) (fuel : Nat) :
     parseUnionTypeExtension (E fl) fuel = parseUnionTypeExtension fl fuel >>= fun d => pure d.erase := by
   simp only [parseUnionTypeExtension, parseName_E, parseDirectives_E,
-    parseUnionMemberTypes_E, mkLoc_E, bind_assoc', pure_bind', ite_bind, fail_bind, isEmpty_map', Definition.erase]
+    parseUnionMemberTypes_E, mkLoc_E, bind_assoc', pure_bind', ite_bind, fail_bind, failAt_bind, failTokAt_bind, isEmpty_map', Definition.erase]
 
 theorem parseEnumTypeExtension_E (fl : Flags) (fuel : Nat) :
     parseEnumTypeExtension (E fl) fuel = parseEnumTypeExtension fl fuel >>= fun d => pure d.erase := by
   simp only [parseEnumTypeExtension, parseName_E, parseDirectives_E,
-    parseEnumValuesDefinition_E, mkLoc_E, bind_assoc', pure_bind', ite_bind, fail_bind, isEmpty_map', Definition.erase]
+    parseEnumValuesDefinition_E, mkLoc_E, bind_assoc', pure_bind', ite_bind, fail_bind, failAt_bind, failTokAt_bind, isEmpty_map', Definition.erase]
 
 theorem parseInputObjectTypeExtension_E (fl : Flags) (fuel : Nat) :
     parseInputObjectTypeExtension (E fl) fuel = parseInputObjectTypeExtension fl fuel >>= fun d => pure d.erase := by
   simp only [parseInputObjectTypeExtension, parseName_E, parseDirectives_E,
-    parseInputFieldsDefinition_E, mkLoc_E, bind_assoc', pure_bind', ite_bind, fail_bind, isEmpty_map', Definition.erase]
+    parseInputFieldsDefinition_E, mkLoc_E, bind_assoc', pure_bind', ite_bind, fail_bind, failAt_bind, failTokAt_bind, isEmpty_map', Definition.erase]
 
 theorem parseTypeSystemExtension_E (fl : Flags) (fuel : Nat) :
     parseTypeSystemExtension (E fl) fuel = parseTypeSystemExtension fl fuel >>= fun d => pure d.erase := by
   simp only [parseTypeSystemExtension, parseSchemaExtension_E, parseScalarTypeExtension_E,
     parseObjectTypeExtension_E, parseInterfaceTypeExtension_E, parseUnionTypeExtension_E, parseEnumTypeExtension_E,
-    parseInputObjectTypeExtension_E, bind_assoc', ite_bind, fail_bind]
+    parseInputObjectTypeExtension_E, bind_assoc', ite_bind, fail_bind, failAt_bind, failTokAt_bind]
 
 /-! ### definitions, documents, entry points -/
 
 theorem parseDefinition_E (fl : Flags) (fuel : Nat) :
     parseDefinition (E fl) fuel = parseDefinition fl fuel >>= fun d => pure d.erase := by
   simp only [parseDefinition, E_ts, parseExecutableDefinition_E, parseTypeSystemDefinition_E,
-    parseTypeSystemExtension_E, bind_assoc', ite_bind, fail_bind]
+    parseTypeSystemExtension_E, bind_assoc', ite_bind, fail_bind, failAt_bind, failTokAt_bind]
 
 theorem parseDocumentP_E (fl : Flags) (fuel : Nat) :
     parseDocumentP (E fl) fuel = parseDocumentP fl fuel >>= fun d => pure d.erase := by
